@@ -199,9 +199,11 @@ FewDK == IF NN <= 13 THEN TinyHalf ELSE { 1, 2, NN \div 4, NN \div 2 }
 TinyTrip == { << d, k, m >> : d \in FewDK, k \in FewDK, m \in 1..2 }
 TinyTripA == { << d, k, 1 >> : d \in FewDK, k \in FewDK }
 TinyTripB == { << d, k, 2 >> : d \in { 1, NN \div 2 }, k \in (IF Thorough THEN { 2, (NN \div 2) - 1 } ELSE { 2 }) }
+\* middle elements with the other message (a history with n_before = 2 then needs the right message in the prefix hash)
+TinyTripM == { << 2, 3, 1 >>, << NN \div 2, 1, 1 >> } \cup { << d, k, 2 >> : d \in { 1 }, k \in { k \in { 2 } : Thorough } }
 \* sequences whose honest aggregate is re-encoded
 TinySeqs == { << >> } \cup { << a >> : a \in (IF Thorough THEN TinyTrip ELSE TinyTripA) }
-            \cup { << a, b >> : a \in TinyTripA, b \in TinyTripB }
+            \cup { << a, b >> : a \in { x \in TinyTripA : Thorough \/ x[2] \in { 1, 3, NN \div 2 } }, b \in TinyTripB }
             \cup { << a, b, c >> : a \in TinyTripB, b \in TinyTripB, c \in { << 3, 4, 1 >> } }
 \* encodings of the aggregate scalar: j < 1000 is the literal value j (every residue and the first overflow values);
 \* 1100 + k (k = 1..9) is the re-encoding s + k*n of the true s; 1000 + i are re-encodings s + K_i * n with huge K_i
@@ -219,7 +221,7 @@ SEnc(j, s) ==
        IN  Add(s, Mul(K, N))
 TinyXPool == IF NN <= 13 THEN SubgroupXs ELSE { X32(PMulG(FromNat(j))) : j \in { 1, 2, NN \div 2 } }
 \* quick tier: the second position ranges over half of the x coordinates
-TinyXPool2 == IF Thorough /\ NN <= 13 THEN TinyXPool ELSE { X32(PMulG(FromNat(j))) : j \in { 1, 2, NN \div 2 } }
+TinyXPool2 == IF Thorough /\ NN <= 13 THEN TinyXPool ELSE { X32(PMulG(FromNat(j))) : j \in (IF Thorough THEN { 1, 2, NN \div 2 } ELSE { 1, NN \div 2 }) }
 TinyBadR == { NBytes(SmallNoLiftX), NBytes(P), NBytes(Max256) }
 TinySPool == IF NN <= 13 THEN 0..(NN + 2) ELSE { 0, 1, 2, NN \div 2, NN - 1, NN, NN + 1 }
 TinyCasesAt(ph) ==
@@ -293,8 +295,8 @@ HistSeqsAt(ph) == { << "sq", n, 1 >> : n \in 0..HistMax } \cup { << "sq", n, 2 >
 HistSeqs == HistSeqsAt(phase)
 TinyHistSeqsAt(ph) == { << "tsq", t >> :
                   t \in { << >> } \cup { << a >> : a \in TinyTrip }
-                        \cup { << a, b >> : a \in TinyTripA, b \in TinyTripB }
-                        \cup { << a, b, c >> : a \in (IF Thorough THEN TinyTripA ELSE TinyTripB), b \in TinyTripB, c \in TinyTripB } }
+                        \cup { << a, b >> : a \in (IF Thorough THEN TinyTrip ELSE TinyTripA), b \in (IF Thorough /\ NN <= 13 THEN TinyTrip ELSE TinyTripB) }
+                        \cup { << a, b, c >> : a \in (IF Thorough THEN TinyTripA ELSE TinyTripB), b \in TinyTripM, c \in TinyTripB } }
 TinyHistSeqs == TinyHistSeqsAt(phase)
 
 HInit == phase = "start" /\ cur = << >> /\ rec = << >>
